@@ -86,3 +86,27 @@ text_harness!(c20_try_from_len5, 5, 8);
 text_harness!(c20_try_from_len6, 6, 9);
 text_harness!(c20_try_from_len7, 7, 10);
 text_harness!(c20_try_from_len8, 8, 11);
+
+/// COMPLETE (loop-free, all inputs): the contracts of the R6 wrappers `w_u32_to_be_bytes`, `w_u32_from_be_bytes`,
+/// `w_u16_*`, `w_u8_from_be_bytes` used by the Verus units (bytes.vrs): the std conversions are exactly the
+/// arithmetic big-endian layout functions be4 / de4 of the contracts.
+#[cfg(kani)]
+#[kani::proof]
+fn wrappers_be_bytes_contract() {
+    let x: u32 = kani::any();
+    let b = x.to_be_bytes();
+    assert!(b[0] == (x / 0x100_0000) as u8);
+    assert!(b[1] == ((x / 0x1_0000) % 0x100) as u8);
+    assert!(b[2] == ((x / 0x100) % 0x100) as u8);
+    assert!(b[3] == (x % 0x100) as u8);
+    let c: [u8; 4] = kani::any();
+    let y = u32::from_be_bytes(c);
+    assert!(y as u64 == c[0] as u64 * 0x100_0000 + c[1] as u64 * 0x1_0000 + c[2] as u64 * 0x100 + c[3] as u64);
+    let h: u16 = kani::any();
+    let hb = h.to_be_bytes();
+    assert!(hb[0] == (h / 0x100) as u8 && hb[1] == (h % 0x100) as u8);
+    let d: [u8; 2] = kani::any();
+    assert!(u16::from_be_bytes(d) as u32 == d[0] as u32 * 0x100 + d[1] as u32);
+    let e: [u8; 1] = kani::any();
+    assert!(u8::from_be_bytes(e) == e[0]);
+}
